@@ -1,6 +1,6 @@
 SPECIFICATION FairSpec
 CONSTANTS MaxLen = 3 MaxN = 0 Infinite = TRUE MaxOut = 100
-  Vals = "nat" Stops = FALSE MaxRuns = 1
+  Vals = "nat" Stops = FALSE MaxRuns = 1 MaxLead = 0
   Alphabet <- AlphaLive
   Must <- NoMust
   Pairs <- OnlyPairs
